@@ -149,7 +149,7 @@ def validate_records(records, trace_module, trace_cfg="", *, chunk=4000, jobs=NC
 
     def one(arg):
         p, n = arg
-        rc, out = run_tlc(trace_module, trace_cfg, workers=1, env={"TRACE_FILE": p}, heap="2g",
+        rc, out = run_tlc(trace_module, trace_cfg, workers=1, env={"TRACE_FILE": p}, heap="1g",
                           timeout=timeout)
         bad = {}
         consumed = None
@@ -164,7 +164,7 @@ def validate_records(records, trace_module, trace_cfg="", *, chunk=4000, jobs=NC
         return bad
 
     bad = {}
-    with ThreadPoolExecutor(max_workers=jobs) as ex:
+    with ThreadPoolExecutor(max_workers=min(jobs, 10)) as ex:  # at most 10 JVMs x 1g at a time
         for b in ex.map(one, files):
             bad.update(b)
     shutil.rmtree(d, ignore_errors=True)
